@@ -21,8 +21,7 @@
                              float(Decimal) = the nearest double; == across number types is exact
       date / time / timedelta  _diff_time: compared with != ; under truncate_datetime
                              datetime_normalize is applied: a time becomes its seconds (int or
-                             float), a date raises TypeError (replace(microsecond=...)), a timedelta
-                             AttributeError (finding C11-TRUNC-DATE)
+                             float), a date / timedelta is left alone (C11-TRUNC-DATE, fixed in /repo by 1c8f0f8)
       the numeric type group contains datetime / date / time / timedelta as in helper.numbers: under
                              ignore_numeric_type_changes a number and a datetime pass the type check
                              (C11-NUMGROUP-DATETIME)
@@ -382,20 +381,14 @@ Definition numD (rtc : bool) (a b : atom) (p1 p2 : path) : res (list entry) :=
       end
   end.
 
-(* datetime_normalize(truncate_datetime, obj) for an arbitrary atom *)
+(* datetime_normalize(truncate_datetime, obj) for an arbitrary atom: only datetimes and times are truncated / converted
+   (1c8f0f8; before, obj.replace(microsecond=...) was called on everything: TypeError on a date, AttributeError on a
+   timedelta - finding C11-TRUNC-DATE); the result type is kept, the function never errs *)
 Definition norm_any (a : atom) : res atom :=
   match a with
   | ADt u o => Ok (dt_norm F u o)
   | ATime us => Ok (time_secs (dt_trunc (o_trunc F) us))
-  | _ =>
-      match o_trunc F with
-      | None => Ok a
-      | Some _ =>
-          match a with
-          | ADate _ _ _ | AStr _ | ABytes _ => Err EType     (* replace() got an unexpected keyword argument *)
-          | _ => Err EAttr                                   (* no attribute 'replace' *)
-          end
-      end
+  | _ => Ok a
   end.
 (* _diff_datetime: t1 is a datetime *)
 Definition dtD (a b : atom) (p1 p2 : path) : res (list entry) :=
